@@ -17,6 +17,7 @@ func realtimeDriver(args []string) (*Summary, error) {
 	zones := fl.fs.String("zones", "nil", "comma separated zone tokens; the identity order is parsed in each")
 	maxPerm := fl.fs.Int("maxperm", 4, "messages with at most this many entities are parsed in every entity order")
 	genN := fl.fs.Int("genents", 25, "entities per generated message")
+	wide := fl.fs.Int("wide", 0, "also one conflict-free message of that many trips and 5/6 as many vehicles without descriptor")
 	fl.fs.Parse(args)
 	w, err := abs.NewWriter(*fl.out)
 	if err != nil {
@@ -76,6 +77,13 @@ func realtimeDriver(args []string) (*Summary, error) {
 			return nil, err
 		}
 		s.Counters["generated_large_messages"]++
+	}
+	if *wide > 0 {
+		n++
+		if err := handle(fmt.Sprintf("wide-%d", *wide), rt.WideCase(*wide, *wide*5/6)); err != nil {
+			return nil, err
+		}
+		s.Counters["generated_wide_messages"]++
 	}
 	s.Records = w.N
 	return s, w.Close()
